@@ -105,7 +105,62 @@ struct Unit {
     layout: ExtLayout,
 }
 
+pub fn replay(path: &str) -> i32 {
+    let s = std::fs::read_to_string(path).expect("MACHINERY: cannot read replay file");
+    let v: serde_json::Value = serde_json::from_str(&s).expect("MACHINERY: replay JSON");
+    let r = if v.get("replay").is_some() { &v["replay"] } else { &v };
+    let ctx = r["ctx"].as_str().unwrap_or("");
+    let mut parts = ctx.split(' ');
+    let cell_name = parts.next().unwrap_or("");
+    let te = parts.next() == Some("TE");
+    let cell = drive::all_cells().into_iter().find(|c| c.name() == cell_name).expect("MACHINERY: cell in ctx");
+    let bytes = |k: &str| -> Option<Vec<u8>> { r.get(k).and_then(|d| d.as_array()).map(|d| d.iter().map(|b| b.as_u64().unwrap() as u8).collect()) };
+    let mut bad = 0;
+    let icmp: Vec<u8> = match (bytes("icmp"), bytes("datagram")) {
+        (Some(i), _) => i,
+        (None, Some(d)) => if cell.v6 { d.clone() } else { d[20.min(d.len())..].to_vec() },
+        _ => panic!("MACHINERY: no bytes in replay"),
+    };
+    println!("replay C14 [{ctx}] ICMP message {} octets", icmp.len());
+    match mc::catch(|| view_split(cell.v6, te, &icmp)) {
+        Err(p) => {
+            println!("DISCREPANCY {}: {}", p.key(), p.message);
+            bad += 1;
+        }
+        Ok(Err(e)) => println!("views refuse the buffer: {e}"),
+        Ok(Ok((payload, ext))) => println!("payload() {} octets, extension() {:?} octets", payload.len(), ext.as_ref().map(Vec::len)),
+    }
+    if let Some(d) = bytes("datagram") {
+        let p = TraceParams { packet_size: 1024, initial_sequence: 33434, pattern: 0xa5, ..TraceParams::default() };
+        let net = drive::net_cfg(&cell, &p, drive::topo_linear(&cell, 3, Target::Silent), Menu::default());
+        simnet::install(net, Chooser::new(&[], 0));
+        {
+            let mut ch = drive::make_channel(&cell, &p).expect("MACHINERY: channel connect");
+            let peer = cell.v6.then(|| SocketAddr::new(cell.hop_addr(1, 0), 0));
+            simnet::with(|w| w.inject.push_back((d, peer)));
+            match mc::catch(|| ch.recv_probe()) {
+                Err(p) => {
+                    println!("DISCREPANCY {}: {} at {}:{}", p.key(), p.message, p.file, p.line);
+                    bad += 1;
+                }
+                Ok(x) => println!("recv_probe -> {x:?}"),
+            }
+        }
+        let _ = simnet::take();
+    }
+    if bad == 0 {
+        println!("replay: no panic; compare the printed result with the 'detail' of the artefact (encoded objects vs decoded)");
+        0
+    } else {
+        println!("VIOLATION property=C14 replay={path}");
+        1
+    }
+}
+
 pub fn run(args: &Args) -> i32 {
+    if let Some(path) = &args.replay {
+        return replay(path);
+    }
     let tier = args.tier;
     let mut rep = Report::new("C14", tier, "exploration");
     let findings: Mutex<Findings> = Mutex::new(Findings::new());
